@@ -666,6 +666,9 @@ func runScenario(sc Scenario) (res runResult) {
 		}
 		if err == nil && has {
 			got, rerr := readContents(ctx, ndb2, dst)
+			if rerr != nil && sc.Backend2 == "badger" && strings.Contains(rerr.Error(), "mkvs: node not found in node db") {
+				panic(rerr) // node database defect, see keyDiscardSharedNode
+			}
 			if rerr != nil {
 				viol("pair %d attempt %d (%s): stored root unreadable: %v", p.idx, ai, a.kind, rerr)
 			} else if !kvEqual(got, a.dstKV) {
